@@ -4897,3 +4897,73 @@ func ruleKeyRequestNamesOneKey(r *Run) {
 	}
 	r.check(n >= 1, "keyvalue:single-key-path-elements", fmt.Sprintf("%d", n), "none found: rule needs review", w.fpos(f))
 }
+
+// ---------------------------------------------------------------------------------------------
+// R20.63 — a channel is closed at most once on every path
+
+func init() {
+	register(ruleDef{ID: "R20.63", Prop: "C20", Tier: "quick", Floor: 1,
+		Title: "a channel is closed at most once: in the datastore, server, storage and datatype packages no path leads from one close of a channel to a close of the same channel (the same variable, not reassigned in between) — a second close panics, and in the block receivers it does so after part of the stream was stored",
+		Fn:    ruleChannelClosedOnce})
+}
+
+func ruleChannelClosedOnce(r *Run) {
+	w := r.W
+	n, multi := 0, 0
+	for _, f := range w.RepoFuncs {
+		if len(f.Blocks) == 0 || isTestFunc(w, f) {
+			continue
+		}
+		p := relPkg(pkgPathOf(f))
+		if !(strings.HasPrefix(p, "datatype/") || p == "datastore" || p == "server" || strings.HasPrefix(p, "storage")) {
+			continue
+		}
+		byKey := map[string][]ssa.Instruction{}
+		for _, c := range calls(f) {
+			bi, ok := c.Common().Value.(*ssa.Builtin)
+			if !ok || bi.Name() != "close" {
+				continue
+			}
+			if _, isDefer := c.(*ssa.Defer); isDefer {
+				continue
+			}
+			// one of several channels, picked by a computed index: each pass of a loop closes another one
+			if u, ok := c.Common().Args[0].(*ssa.UnOp); ok {
+				if ia, ok := u.X.(*ssa.IndexAddr); ok {
+					if _, isC := constInt(ia.Index); !isC {
+						continue
+					}
+				}
+			}
+			n++
+			byKey[placeKey(c.Common().Args[0])] = append(byKey[placeKey(c.Common().Args[0])], c)
+		}
+		k := 0
+		for key, cs := range byKey {
+			if key == "" {
+				continue
+			}
+			// a reassignment of the variable holding the channel
+			reassigned := func(x ssa.Instruction) bool {
+				st, ok := x.(*ssa.Store)
+				if !ok {
+					return false
+				}
+				return "load("+addrKey(st.Addr)+")" == key
+			}
+			for _, c1 := range cs {
+				for _, c2 := range cs {
+					multi++
+					pth := findPath(f, c1, reassigned, func(x ssa.Instruction) bool { return x == c2 }, nil)
+					if pth == nil {
+						continue
+					}
+					k++
+					r.violation(fmt.Sprintf("%s:channel-closed-twice#%d", fname(f), k),
+						"a path leads from one close of the channel to another close of it: the second close panics ('close of closed channel'); where the first close sits on an error path inside a receive loop, a bad stream ends in a panic after part of it was stored, and senders still running panic on their next send", w.pos(c2.Pos()), w.renderPath(pth)...)
+				}
+			}
+		}
+	}
+	r.check(n >= 10, "repo:channel-closes", fmt.Sprintf("%d closes, %d ordered pairs on one channel examined", n, multi), "too few: rule needs review", "-")
+}
